@@ -650,6 +650,27 @@ impl Property for C16 {
             if xrng.chance(1, 5) {
                 sc16.spec.script_wrappers = xrng.range(1, 4) as u8;
             }
+            // one scenario in six: one member in the middle of the wide layer does not define one of the commands
+            // (not an error without --fail-on-undefined): the members before and after it still rendezvous
+            let ws: Vec<String> = sc16.spec.targets.iter().filter(|t| t.path.starts_with('w')).map(|t| t.path.clone()).collect();
+            let all_plain = sc16.spec.cmd_files.iter().all(|c| c.exec && !c.broken) && {
+                let mut rels: Vec<&String> = sc16.spec.cmd_files.iter().map(|c| &c.rel).collect();
+                rels.sort();
+                rels.windows(2).all(|w| w[0] != w[1])
+            };
+            if ws.len() >= 3 && all_plain && !sc16.script.opts.fail_on_undefined && xrng.chance(1, 6) {
+                let t = ws[xrng.range(1, ws.len() - 2)].clone();
+                let cs: Vec<String> = sc16.spec.cmd_files.iter().filter(|c| c.target == t).map(|c| c.command.clone()).collect();
+                if !cs.is_empty() {
+                    let c = cs[xrng.below(cs.len())].clone();
+                    sc16.spec.cmd_files.retain(|f| !(f.target == t && f.command == c));
+                    sc16.script.behav.retain(|b| !(b.target == t && b.command == c));
+                }
+            }
+            // one scenario in eight is started the way a recipe of `make -j2` would start it
+            if xrng.chance(1, 8) {
+                sc16.script.make_jobserver = true;
+            }
             if with_listener && xrng.chance(1, 2) {
                 sc16.script.lfaults.push(crate::rundrv::LFault { at: crate::rundrv::LTrigger::AtPoint { name: "run.spawn".into(), nth: xrng.range(1, 3) }, action: crate::rundrv::LAction::Kill });
             }
